@@ -9,6 +9,8 @@ def monitor(s, t):
     a rejection is early only if it precedes call() + max_wait, late only if the caller is still pending when polled at
     or after first poll + max_wait. Which of permit and timer wins an exact tie, the order in which waiters are served
     and spurious wake-ups are left open."""
+    if panicked(s, t):
+        return panicked(s, t)
     d = decode(s, t)
     if d is None:
         return "malformed or panicking run: %s" % t[:10]
@@ -20,7 +22,8 @@ def monitor(s, t):
     state = {}          # caller -> 'wait' | 'run' | 'end' (absent: never polled)
     reached = set()     # requests the inner service's call() has seen (the inner service's own record)
     barred = {}         # requests that must never reach the inner service -> why
-    probe = evt[-(cap + 1):]
+    probe = evt[-probe_len(s[0]):]
+    need = min(cap, len(probe))
     for k, (e, o) in enumerate(evt):
         op, a, b = e
         r, started, seen, mask, infl, ids = o
@@ -31,7 +34,7 @@ def monitor(s, t):
         if op in (1, 2, 5) and a not in called:
             called[a] = now
         if op == 6:
-            for j in range(n + cap + 1):
+            for j in range(n + len(probe)):
                 called.setdefault(j, now)
         if op == 3:
             old = now
@@ -85,7 +88,7 @@ def monitor(s, t):
         if waiting and nrun < cap and max(waiting) < MASKW and not any((mask >> j) & 1 for j in waiting):
             return "after event %d %s: %d in flight (cap %d), callers %s wait and none of them has been woken: capacity lost" % (k, e, nrun, cap, waiting)
     # capacity probe: nothing is in flight or waiting any more; cap fresh callers arrive one after the other
-    ok = sum(1 for (_, o) in probe[:cap] if o[1] >= 1)
-    if ok != cap:
-        return "after the history, with nothing in flight, only %d of the first %d probe callers were admitted (cap %d)" % (ok, cap, cap)
+    ok = sum(1 for (_, o) in probe[:need] if o[1] >= 1)
+    if ok != need:
+        return "after the history, with nothing in flight, only %d of the first %d probe callers were admitted (cap %d)" % (ok, need, cap)
     return None
